@@ -347,8 +347,10 @@ def check_covariance(ctx: Check, tree: Tree, A: Angles, exprs: dict) -> None:
 def check_consumers(ctx: Check, tree: Tree) -> None:
     gen = tree.cls("ampform.helicity.align.dpd::_DPDAlignmentWignerGenerator")
     call = gen.methods.get("__call__")
-    t = unparse(call.node).replace(" ", "")
-    ok = "formulate_zeta_angle(rotated_state,aligned_subsystem,self.reference_subsystem)" in t and "Wigner.d(j,m,m_prime,zeta)" in t and "self.angle_definitions[zeta]=zeta_expr" in t
+    from ..canon import canon
+
+    t = canon(call.node, call.node).replace(" ", "")
+    ok = "_0,_1=formulate_zeta_angle(rotated_state,aligned_subsystem,self.reference_subsystem)" in t and "Wigner.d(j,m,m_prime,_0)" in t and "self.angle_definitions[_0]=_1" in t
     ctx.verdict(ok, "R-TERM", f"{gen.qual}.__call__::wiring", tree.loc(call.node), "the DPD Wigner-d of state i in subsystem j uses zeta^i_{j(reference)} and registers its definition under the same symbol")
 
 
